@@ -535,6 +535,25 @@ def r33(facts, res):
             res.ok(R, 'prec-override-exclusive', loc_of(b, idx[0][0]), 'the token search is skipped when %prec is given')
 
 
+def const_str_of(b, op, depth=5):
+    """the string literal an operand holds (directly, or through temporaries / reborrows), else None"""
+    c = op.get('const')
+    if c is not None:
+        return c.get('str')
+    l = op_local(op)
+    if l is None or depth == 0 or b.name_of(l):
+        return None
+    ds = b.defs().get(l, [])
+    if len(ds) != 1 or ds[0][1] != 'stmt':
+        return None
+    rv = ds[0][2]
+    if 'use' in rv:
+        return const_str_of(b, rv['use'], depth - 1)
+    if 'ref' in rv:
+        return const_str_of(b, {'copy': {'l': rv['ref']['l'], 'p': []}}, depth - 1)
+    return None
+
+
 def r34(facts, res):
     R = 'R3.4'
     b = facts.one(R, 'YaccParser::parse_declarations', crate='cfgrammar', name='parse_declarations')
@@ -563,6 +582,34 @@ def r34(facts, res):
                         and s['rv']['agg'].get('adt', '').endswith('AssocKind'):
                     kinds.add(s['rv']['agg']['vname'])
         got[lit] = (kinds, bb)
+    if not got:
+        # the same mapping as a literal table [(keyword, kind), ..] searched with find_map: each row pairs the keyword with its kind,
+        # and the searching closure tests ITS row's keyword and answers with ITS row's kind
+        rows = {}
+        for bb, i, st in b.stmts():
+            rv = st['rv'] if st['k'] == 'assign' else {}
+            lit0 = const_str_of(b, rv['ops'][0]) if rv.get('agg') == 'tuple' and len(rv['ops']) == 2 else None
+            if lit0 in want:
+                kl = op_local(rv['ops'][1])
+                ks = {d[2]['agg']['vname'] for d in b.defs().get(kl, []) if d[1] == 'stmt' and 'agg' in d[2] and isinstance(d[2]['agg'], dict) and d[2]['agg'].get('adt', '').endswith('AssocKind')}
+                rows[lit0] = (ks, bb)
+        row_ok = False
+        for c in facts.closures_of(b):
+            if not c.calls_named('lookahead_is'):
+                continue
+            isrow = lambda x, f: isinstance(x, tuple) and len(x) > 2 and x[0] == 'field' and x[2] == f and strip_ref(x[1]) in (('param', 2), ('deref', ('param', 2)))
+            ps = [p for p in Walker(c, facts, max_paths=32).run() if p.end[0] == 'return' and find_variant(p.end[1], 'Option') is not None and find_variant(p.end[1], 'Option')[3] == 'Some']
+            good = bool(ps)
+            for p in ps:
+                la = [e for e in p.calls(name='lookahead_is')]
+                v = find_variant(p.end[1], 'Option')
+                kind_from_row = term_has(v, lambda x: isrow(x, 1))
+                kw_from_row = bool(la) and any(isrow(strip_ref(a), 0) for a in la[0][3])
+                if not (kind_from_row and kw_from_row):
+                    good = False
+            row_ok = row_ok or good
+        if rows and row_ok:
+            got = rows
     for lit, k in want.items():
         if lit not in got:
             res.bad(R, 'keyword:' + lit, loc_of(b), 'keyword literal %s is not tested by the declaration parser' % lit)
